@@ -297,7 +297,19 @@ def _first_error(validator, doc):
         return None
     top = sorted(errs, key=lambda e: (len(e.absolute_path), str(e.validator), e.message))[0]
     e = top
-    # under anyOf / oneOf report the combinator itself (which branch "should" have matched is not defined)
+    out = _err_dict(e)
+    # under a combinator: the most specific reason of every branch (if they all agree, that is the phenomenon)
+    if e.context:
+        branches = {}
+        for c in e.context:
+            b = c.relative_schema_path[0] if c.relative_schema_path else 0
+            branches.setdefault(b, []).append(c)
+        out["branches"] = [_err_dict(_deepest(sorted(cs, key=lambda c: (-len(c.absolute_path), str(c.validator), c.message))[0]))
+                           for _, cs in sorted(branches.items(), key=lambda kv: str(kv[0]))]
+    return out
+
+
+def _err_dict(e):
     return {"validator": str(e.validator), "value": _js(e.validator_value), "instance": _js(e.instance),
             "path": [str(p) for p in e.absolute_path], "schema": _js(e.schema), "msg": e.message[:200]}
 
@@ -503,6 +515,10 @@ def stmt_exact(d, top=True):
     return all(stmt_exact(v, False) for kk, v in d.items() if kk not in ("values", "defaults"))
 
 
+FEATURE_PRIORITY = ["nested-field-wrapper", "positional-shorter", "map-size", "oneOf", "notF", "allOf",
+                    "sign-with-explicit-bound", "exclusiveMaximum-without-maximum", "unique-by-python-eq"]
+
+
 def inexact_features(d, acc):
     """declaration features for which the emitted schema is known to admit more than the runtime"""
     if isinstance(d, list):
@@ -540,6 +556,15 @@ def inexact_features(d, acc):
 
 def admit_key(err):
     """stable name of the phenomenon behind a validation error of a serialized valid instance"""
+    if err.get("branches"):
+        keys = {admit_key(b) for b in err["branches"]}
+        if len(keys) == 1 and not (keys & {"type", "enum", "required"}):
+            return keys.pop()
+        return err["validator"]
+    return _admit_key(err)
+
+
+def _admit_key(err):
     v, inst, sch = err["validator"], err["instance"], err["schema"] if isinstance(err["schema"], dict) else {}
     if v == "type" and isinstance(inst, bool) and err["value"] in ("integer", "number"):
         return "bool-as-number"
@@ -547,6 +572,10 @@ def admit_key(err):
         return "bool-as-number"
     if v == "type" and isinstance(inst, dict) and err["value"] != "object":
         return "nested-field-wrapper"
+    if v == "enum" and isinstance(inst, dict):
+        return "nested-field-wrapper"
+    if v == "type" and inst in ("True", "False") and err["value"] == "boolean":
+        return "raw-boolean-string"
     if v == "type" and inst is None:
         return "null-in-container"
     if v in ("enum", "allOf", "anyOf", "oneOf", "not", "$ref") and isinstance(inst, dict) and "properties" not in sch \
@@ -685,7 +714,8 @@ def oracle(case, impl, model):
                     f1 = culprit_field(case["cls"], r["deser"].get("msg", ""))
                     suspects = [f1] if f1 is not None else [fd for _, fd in case["cls"]["fields"]]
                 ff = inexact_features(suspects, set())
-                why = "+".join(sorted(ff)) if ff else "unexplained:" + "+".join(sorted({f["k"] for f in suspects}))[:40]
+                ff = [x for x in FEATURE_PRIORITY if x in ff][:1]
+                why = ff[0] if ff else "unexplained:" + "+".join(sorted({f["k"] for f in suspects}))[:40]
                 fails.append((f"exact:{why}",
                               f"the schema admits a document the Deserializer rejects ({r['deser']['err']}: {r['deser'].get('msg')}): " + json.dumps(dj)[:250]))
     return fails
